@@ -41,8 +41,9 @@ Record tokparts := mkTok {
   tk_hdr : hdr;
   tk_claims : cseg;
   tk_sig_b64 : bool;        (* the signature segment is base64url *)
-  tk_mac_key : option bytes; (* ... and is HMAC_alg(k, header "." claims) for this secret k - the WHOLE byte string of a
-                               secret, found by recomputing the MAC under every secret of the run; None: under none *)
+  tk_mac_key : option bytes; (* ... and is HMAC_alg(k, header "." claims) for this HMAC key k - the key block (hmac_key
+                               below) of a secret, found by recomputing the MAC under every WHOLE secret of the run;
+                               None: under none *)
   tk_sig_canon : bool;      (* the signature segment is exactly the unpadded base64url text of the bytes it decodes to *)
   tk_iat : option Z;        (* claim IssuedAt, when it is a string: result of parsing it as RFC 3339 (ns) *)
   tk_pl : option N          (* digest of the claims decoded into the expected payload struct; None = does not decode *)
@@ -109,8 +110,17 @@ Definition claims_verdict (now : Z) (c : claims) : option jerr :=
   | _, _ => Some JClaims
   end.
 
-(* HMAC as an ideal MAC: a signature made under secret k verifies under secret k' iff k = k' as
-   byte strings (whatever their lengths) *)
+(* HMAC does not use a secret as it is: a secret longer than the block of the hash is replaced by
+   its hash, and the result is padded with zero bytes to the block.  This block is the key of the
+   MAC; two secrets with the same block are the same signer as far as HMAC can tell (H: the hash of
+   the method, B: its block size - SHA-256: 64, SHA-384/512: 128). *)
+Definition hmac_key (H : bytes -> bytes) (B : nat) (k : bytes) : bytes :=
+  let k0 := if Nat.ltb B (length k) then H k else k in
+  k0 ++ repeat 0%N (B - length k0).
+
+(* The keys of this model (key, k, t_key ...) are such key blocks, computed by the harness with the
+   real SHA-2 from the WHOLE secret for the method of the token at hand.
+   HMAC as an ideal MAC: a signature made under key k verifies under key k' iff k = k' *)
 Definition mac_under (key : bytes) (t : tokparts) : bool := option_eqb lex_eqb (tk_mac_key t) (Some key).
 
 Definition parse_verdict (now : Z) (alg : option bytes) (c : claims) (sig_b64 sig_ok : bool) : option jerr :=
@@ -291,8 +301,8 @@ Inductive origin :=
 | ORaw.  (* any other string: nothing in it was computed from a secret *)
 
 Record vtrace := mkTrace {
-  t_key : bytes;        (* secret the validating signer was constructed with (whole byte string) *)
-  t_key_buf : bytes;    (* what the caller's slice holds when the validation runs (the caller may have overwritten it) *)
+  t_key : bytes;        (* HMAC key (block of the whole secret) the validating signer was constructed with *)
+  t_key_buf : bytes;    (* HMAC key of what the caller's slice holds when the validation runs (the caller may have overwritten it) *)
   t_empty : bool;       (* the string is the empty string (for Authenticate: no token, the guest) *)
   t_now : Z;
   t_aud : bytes;        (* payload type the validator expects *)
@@ -349,8 +359,8 @@ Definition agrees_v (t : vtrace) : bool :=
 
 (* satisfies: the property on the observed results and the origin of the string only.
    No call may panic.  A call may succeed only if the string is an unchanged token issued with the
-   validator's secret - the byte string it was constructed with, of whatever length and whatever
-   the caller did to its buffer afterwards - (or a header.claims pair
+   validator's HMAC key - the key block of the whole secret it was constructed with, whatever the
+   caller did to its buffer afterwards - (or a header.claims pair
    HMAC-signed with that secret), for the expected
    payload type, for the validator's application when the validation is application-bound, and
    its lifetime has not elapsed; the generic and decoded payloads of an issued token are the
@@ -393,7 +403,8 @@ Definition satisfies_v (t : vtrace) : bool :=
 
 (* ---- secrets: construction and CryptoHash256 of two signers side by side ---- *)
 Record ktrace := mkKeys {
-  k_a : bytes; k_b : bytes;            (* the two secrets *)
+  k_a : bytes; k_b : bytes;            (* the two secrets, whole *)
+  k_na : bytes; k_nb : bytes;          (* their HMAC-SHA256 key blocks *)
   k_ctor_a : bool; k_ctor_b : bool;    (* NewJWTSigner returned (true) or panicked (false) *)
   k_hash_eq : option bool              (* both constructed: CryptoHash256(data) of a = that of b, same data *)
 }.
@@ -404,13 +415,13 @@ Definition agrees_k (t : ktrace) : bool :=
   Bool.eqb (k_ctor_a t) (signer_constructible (k_a t))
   && Bool.eqb (k_ctor_b t) (signer_constructible (k_b t))
   && option_eqb Bool.eqb (k_hash_eq t)
-       (if signer_constructible (k_a t) && signer_constructible (k_b t) then Some (lex_eqb (k_a t) (k_b t)) else None).
+       (if signer_constructible (k_a t) && signer_constructible (k_b t) then Some (lex_eqb (k_na t) (k_nb t)) else None).
 
-(* property side: signers with different secrets (different byte strings) are different signers -
-   their keyed hashes of the same data differ; the same secret gives the same hash *)
+(* property side: signers with different HMAC keys are different signers - their keyed hashes of
+   the same data differ; the same key gives the same hash *)
 Definition satisfies_k (t : ktrace) : bool :=
   match k_hash_eq t with
-  | Some e => Bool.eqb e (lex_eqb (k_a t) (k_b t))
+  | Some e => Bool.eqb e (lex_eqb (k_na t) (k_nb t))
   | None => true
   end.
 
